@@ -50,7 +50,7 @@ class DIB(ABC):
     @staticmethod
     def determine_dib(raw: bytes) -> DIB:
         """Determine dib type out of dib type code."""
-        if len(raw) < 2:
+        if len(raw) < 2 or raw[0] < DIB_HEADER_LENGTH:
             raise CouldNotParseKNXIP("could not parse DIB header")
         dtc = DIBTypeCode(raw[1])
 
